@@ -77,6 +77,11 @@ Definition pickle_findings := list sev.
 Definition face_is_likely_safe (first : pickle_findings) : bool :=
   sev_eq (severity first) LIKELY_SAFE.
 
+(* bool(check_safety(p)) -- AnalysisResults.__bool__: all(map(bool, sorted(self.results))), where
+   AnalysisResult.__bool__ is `self.severity == Severity.LIKELY_SAFE` (sorting does not change `all`) *)
+Definition face_bool (first : pickle_findings) : bool :=
+  forallb (fun r => sev_eq r LIKELY_SAFE) first.
+
 (* loader.load: `if result.severity <= max_acceptable_severity: return ... else: raise` *)
 Definition face_loader_raises (thr : sev) (first : pickle_findings) : bool :=
   negb (sev_le (severity first) thr).
@@ -94,6 +99,7 @@ Definition face_json (ps : list pickle_findings) : list string :=
 Definition show_faces (thr : sev) (ps : list pickle_findings) : string :=
   let first := match ps with p :: _ => p | [] => [] end in
   "(faces " ++ show_bool (face_is_likely_safe first) ++ " "
+            ++ show_bool (face_bool first) ++ " "
             ++ show_bool (face_loader_raises thr first) ++ " "
             ++ nat_to_string (face_cli_exit ps) ++ " ("
             ++ String.concat " " (face_json ps) ++ "))".
